@@ -13,6 +13,9 @@
      bary / in_triangle / cross   signed barycentric coordinates, closed triangle test, doubled signed area
      rect_neighbors H W           mesh_util.rectangular_neighbors_from     adj4 H W i   4-adjacency of pixel i
      del_neighbors                Mesh2DDelaunay.neighbors (CSR -> padded rows)
+   (Model/C06h.v) held_data / held_mesh rel preload ...  the grids a MapperGrids built by mesh.mapper_grids_from holds (mesh/abstract.py
+     relocated_grid_from, triangulation.py relocated_mesh_grid_from; the relocation is Model/C18.v);  rect_mesh_api / del_mesh_api  the
+     mapper inputs the mesh API produces;  (Proofs/C06r.v) source_of preload data = the preloaded grid if any, else data
    (Proofs/C06.v) mapper_ok m subs P mp sz : the sub-size map fits the mask, every sub-size >= 1 and every listed
      source-pixel index of the total_sub subs sub-pixels is in [0, P);  listed_weight mp sz wt s p : sum of the listed
      weights of sub-pixel s that point to source pixel p;  entry_spec : the same restricted to the sub-pixels whose
@@ -20,7 +23,7 @@
      del_w : the Delaunay weight of sub-pixel s towards p (area ratios inside a simplex, nearest-vertex indicator outside);
      final_row H W t = (adj4 H W t padded with -1 to length 4, its length);  mat_shape N P M : M is N x P. *)
 From Coq Require Import ZArith List Bool Reals Lra Lia QArith.
-From PAV Require Import Base.Res Base.Check Base.NumOps Base.Sum Model.C06 Proofs.C06 Model.C06h Proofs.C06h.
+From PAV Require Import Base.Res Base.Check Base.NumOps Base.Sum Model.C06 Proofs.C06 Model.C06h Proofs.C06h Proofs.C06r.
 Import ListNotations.
 Local Open Scope R_scope.
 
@@ -371,6 +374,101 @@ Theorem C06_del_history : forall m subs (grid points : list (R * R)) simplices s
          /\ (nth_error ops k = Some OUq -> nth_error outs k = Some (BUq (Ok (uq_packT rows)))).
 Proof. exact del_history. Qed.
 
+(* ---------------------------------------------------------------- mappers built through the mesh API *)
+(* aa.mesh.Rectangular(shape) / aa.mesh.Delaunay() .mapper_grids_from(mask, source_plane_data_grid, source_plane_mesh_grid,
+   border_relocator, preloads) (Model/C06h.v: held_data / held_mesh / rect_mesh_api / del_mesh_api; the relocation itself
+   is C18's model, Model/C18.v).  Whatever the relocator does to the coordinates, the grids the MapperGrids object HOLDS
+   have one entry per sub-pixel / per vertex handed in; a preloaded relocated grid is passed on as it is; for every
+   numeric instance *)
+Theorem C06_mesh_api_held_lengths : forall (O : NumOps) rel preload (data mesh g' v' : list (T O * T O)),
+  @del_mesh_api O rel preload data mesh = Ok (g', v') ->
+  @held_data O rel preload data = Ok g' /\ @held_mesh O rel g' mesh = Ok v' /\
+  length g' = length (@source_of O preload data) /\ length v' = length mesh.
+Proof. exact @del_mesh_api_lengths. Qed.
+Theorem C06_mesh_api_preloaded_grid_is_held : forall (O : NumOps) rel (p data : list (T O * T O)),
+  @held_data O rel (Some p) data = Ok p.
+Proof. exact @held_data_preloaded. Qed.
+
+(* the rectangular mapper of the mesh API, for every relocator (or none) and every preloaded grid (or none): if the call
+   returns, the mesh is the overlay of the HELD grid g' (not of the caller's grid), pix_sub_weights is computed from g'
+   on that mesh, the mapping matrix is row-stochastic, non-negative and entry (i, p) = sum over the sub-pixels s of
+   pixel i of (1/sub_i^2) [cell p of the mesh over g' contains g'[s]], and every held point lies in exactly one cell of
+   that mesh, the one whose index is listed *)
+Theorem C06_rect_mesh_api_mapper : forall rel preload m subs (data : list (R * R)) n0 n1 b g' mesh psw,
+  length subs = count_unmasked m -> (forall i, (i < length subs)%nat -> (1 <= nth i subs 0)%nat) ->
+  length (@source_of ROps preload data) = total_sub subs -> (0 < n0)%Z -> (0 < n1)%Z -> 0 < b ->
+  @rect_mesh_api ROps rel preload (n0, n1) data b = Ok (g', mesh, psw) ->
+  let P := Z.to_nat (n0 * n1) in
+  @held_data ROps rel preload data = Ok g' /\ length g' = total_sub subs
+  /\ mesh = @overlay ROps (n0, n1) g' b /\ psw = @rect_psw ROps mesh g'
+  /\ (exists M, @mapping_matrix ROps (fst (fst psw)) (snd (fst psw)) (snd psw) P (count_unmasked m) (slim_for_sub m subs)
+                  (@sub_fractions ROps subs) = Ok M
+      /\ mat_shape (count_unmasked m) P M
+      /\ (forall i, (i < count_unmasked m)%nat -> sumR (map (fun p => @mget ROps M i p) (seq 0 P)) = 1)
+      /\ (forall i p, (i < count_unmasked m)%nat -> (p < P)%nat -> 0 <= @mget ROps M i p)
+      /\ (forall i p, (i < count_unmasked m)%nat -> (p < P)%nat ->
+            @mget ROps M i p = sumR (map (fun s => 1 / INR (sq_n (nth i subs 0%nat))
+                                                   * @rect_weight ROps (@geom_of_extent ROps (n0, n1) g' b) (nth s g' (0, 0)) p)
+                                         (block subs i))))
+  /\ (forall q, In q g' ->
+        let rc := @pixel_rc ROps mesh q in
+        (0 <= fst rc < n0)%Z /\ (0 <= snd rc < n1)%Z /\ @pixel_index ROps mesh q = (fst rc * n1 + snd rc)%Z /\
+        forall r c, @cell_contains ROps (@geom_of_extent ROps (n0, n1) g' b) r c q = true <-> (r, c) = rc).
+Proof. exact rect_mesh_api_mapper. Qed.
+
+(* the Delaunay mapper of the mesh API, relative to the qhull contract on the HELD grids (the triangulation is built on the
+   held vertices v', find_simplex is asked about the held data grid g') *)
+Theorem C06_del_mesh_api_mapper : forall rel preload m subs (data mesh : list (R * R)) g' v' simplices simplex_for,
+  length subs = count_unmasked m -> (forall i, (i < length subs)%nat -> (1 <= nth i subs 0)%nat) ->
+  length (@source_of ROps preload data) = total_sub subs -> mesh <> [] ->
+  @del_mesh_api ROps rel preload data mesh = Ok (g', v') ->
+  length simplex_for = length g' ->
+  (forall row, In row simplices ->
+    exists a b c, row = [a; b; c] /\ (0 <= a < Z.of_nat (length v'))%Z /\ (0 <= b < Z.of_nat (length v'))%Z
+                  /\ (0 <= c < Z.of_nat (length v'))%Z
+                  /\ @cross ROps (vtxR v' row 0) (vtxR v' row 1) (vtxR v' row 2) <> 0) ->
+  (forall t, In t simplex_for -> t = (-1)%Z \/ (0 <= t < Z.of_nat (length simplices))%Z) ->
+  let mp := fst (@del_mappings ROps g' simplex_for simplices v') in
+  let sz := snd (@del_mappings ROps g' simplex_for simplices v') in
+  let P := length v' in
+  length g' = total_sub subs /\ length v' = length mesh
+  /\ exists M, @mapping_matrix ROps mp sz (@del_weights ROps g' v' mp) P (count_unmasked m) (slim_for_sub m subs)
+                 (@sub_fractions ROps subs) = Ok M
+      /\ mat_shape (count_unmasked m) P M
+      /\ (forall i, (i < count_unmasked m)%nat -> sumR (map (fun p => @mget ROps M i p) (seq 0 P)) = 1)
+      /\ (forall i p, (i < count_unmasked m)%nat -> (p < P)%nat -> 0 <= @mget ROps M i p)
+      /\ (forall i p, (i < count_unmasked m)%nat -> (p < P)%nat ->
+            @mget ROps M i p = sumR (map (fun s => 1 / INR (sq_n (nth i subs 0%nat)) * del_w g' v' simplices simplex_for s p)
+                                         (block subs i))).
+Proof. exact del_mesh_api_mapper. Qed.
+
+(* non-vacuity of the mesh-API hypotheses at the real numbers: with a relocator AND a preloaded grid the call returns the
+   preloaded grid; without either it returns the caller's grid (the grid of C06_rect_hyps_satisfiable) *)
+Example C06_mesh_api_hyps_satisfiable :
+  let m := [[true; false]; [false; true]] in let subs := [1; 2]%nat in
+  let grid : list (R * R) := [(1, -1); (0, 0); (1/2, 2); (-1, 1/4); (-3/2, 3)] in
+  let other : list (R * R) := [(9, 9)] in
+  (exists mesh psw, @rect_mesh_api ROps (Some (m, subs)) (Some grid) (3, 4)%Z other (1/8) = Ok (grid, mesh, psw))
+  /\ (exists mesh psw, @rect_mesh_api ROps None None (3, 4)%Z grid (1/8) = Ok (grid, mesh, psw))
+  /\ length (@source_of ROps (Some grid) other) = total_sub subs
+  /\ @del_mesh_api ROps None None grid other = Ok (grid, other).
+Proof. cbv zeta. split; [|split; [|split]]; try (eexists; eexists; reflexivity); reflexivity. Qed.
+(* and the relocating branch is executable: a 3 x 3 frame (sub-size 1) whose centre pixel is traced to (0, 50); the eight
+   outer pixels are the border (centroid (0,0), smallest border radius 1), the outlier is pulled radially inward onto the
+   radius of its nearest border point (0, 1), everything else is left alone, the 3 x 3 mesh is laid over the HELD grid and
+   the moved sub-pixel is paired with the cell of its new position (row 1, column 2) *)
+Example C06_mesh_api_relocating_branch_runs :
+  let m := [[false; false; false]; [false; false; false]; [false; false; false]] in
+  let ss := [1; 1; 1; 1; 1; 1; 1; 1; 1]%nat in
+  let data := [(1, -1); (1, 0); (1, 1); (0, -1); (0, 50); (0, 1); (-1, -1); (-1, 0); (-1, 1)]%Q in
+  match @rect_mesh_api QOps (Some (m, ss)) None (3, 3)%Z data (1 # 8)%Q with
+  | Ok (g', mesh, psw) =>
+      g' = [(1, -1); (1, 0); (1, 1); (0, -1); (0, 1); (0, 1); (-1, -1); (-1, 0); (-1, 1)]%Q
+      /\ fst (fst psw) = [[0]; [1]; [2]; [3]; [5]; [5]; [6]; [7]; [8]]%Z
+  | Raise _ => False
+  end.
+Proof. vm_compute. split; reflexivity. Qed.
+
 (* ---------------------------------------------------------------- non-vacuity *)
 (* mapper_ok is met by a concrete non-trivial input (2 unmasked pixels, sub-sizes 1 and 2, repeated and 3-fold mappings) *)
 Example C06_mapper_ok_satisfiable :
@@ -458,3 +556,5 @@ Print Assumptions C06_rect_weight_is_cell_indicator. Print Assumptions C06_delau
 Print Assumptions C06_delaunay_weight_barycentric_in_simplex. Print Assumptions C06_tri_neighbors_spec. Print Assumptions C06_tri_neighbors_symmetric.
 Print Assumptions C06_history_pure. Print Assumptions C06_history_order_irrelevant.
 Print Assumptions C06_rect_history. Print Assumptions C06_del_history.
+Print Assumptions C06_mesh_api_held_lengths. Print Assumptions C06_mesh_api_preloaded_grid_is_held.
+Print Assumptions C06_rect_mesh_api_mapper. Print Assumptions C06_del_mesh_api_mapper.
